@@ -42,6 +42,15 @@ where
       let sctl = StreamController::new(s);
       let timer = Arc::new(RwLock::new(None::<Subscription<'a>>));
       let scheduler_ctor = scheduler_ctor.clone();
+      {
+        let timer = Arc::clone(&timer);
+        sctl.set_on_finalize(move || {
+          let timer = timer.write().unwrap().take();
+          if let Some(timer) = timer {
+            timer.unsubscribe();
+          }
+        });
+      }
 
       let sctl_next = sctl.clone();
       let sctl_error = sctl.clone();
@@ -74,6 +83,12 @@ where
                   junk_complete!(),
                 ),
             );
+            if !sctl_next.is_subscribed() {
+              let timer = timer.write().unwrap().take();
+              if let Some(timer) = timer {
+                timer.unsubscribe();
+              }
+            }
           }
         },
         move |_, e| {
